@@ -21,9 +21,11 @@ META["text"] = (
     "final normalize4 included); mulPose/negPose on poses with unit quaternions are associative, have the identity pose as neutral element, negPose is a two-sided inverse and trnVecPose is a "
     "group action; axisAngle2Quat of a unit axis is a unit quaternion and quat2Mat of it is the Rodrigues matrix; euler2Quat for EVERY sequence string over xyzXYZ of ANY length (induction over the string) "
     "is the ordered product: extrinsic factors in reverse order times intrinsic factors in order, each factor being axisAngle2Quat of the coordinate axis, and is None exactly when a character is invalid; "
-    "MJX rotate equals rotVecQuat on unit quaternions. Partial: C24_sub_integrate_partial (subQuat(quatIntegrate q v h, q) = v*h) is proved for unit q and |h| |v| <= pi under the explicit side conditions that "
+    "mulQuatAxis(q,a) = q*(0,a) and derivQuat(q,w) = (0,w)*q/2; MJX rotate equals rotVecQuat on unit quaternions, MJX quat_integrate equals quatIntegrate for unit q and velocity zero or above its 1e-8 zero test, "
+    "MJX quat_sub equals subQuat when the vector part of the relative quaternion is zero or above 1e-8. Partial: C24_sub_integrate_partial (subQuat(quatIntegrate q v h, q) = v*h) is proved for unit q and |h| |v| <= pi under the explicit side conditions that "
     "no mjMINVAL guard fires (h|v| = 0, or |v| >= 1e-15 and |sin(h|v|/2)| >= 1e-15); the atan2/sin/cos identity it needs is proved, not assumed. "
-    "Not proved (oracle only, on implementation output): mjd_subQuat and mjd_quatIntegrate against centred finite differences of mju_subQuat/mju_quatIntegrate; quatZ2Vec and quat2Vel/derivQuat laws. "
+    "Not proved (oracle only, on implementation output): mjd_subQuat and mjd_quatIntegrate against centred finite differences of mju_subQuat/mju_quatIntegrate (the analytic-derivative clause has no theorem); quatZ2Vec maps the z axis onto v/|v|; "
+    "subQuat is insensitive to the sign of the quaternion (angle wrapped to [-pi,pi]); quatIntegrate normalises non-unit input; mju_ functions tolerate result/argument aliasing. "
     "The model is tied on every run to the C functions (mju_ exported and mji_ inlined variants, aliasing calls included) and to MJX math.py (float64) by evaluating the model at binary64 inside Coq on the same inputs "
     "(random, identity/zero/pi/branch-boundary/near-mjMINVAL inputs, all 216 Euler sequences plus invalid ones); MJX functions are compared both with their own model (mjx_*) on all inputs and with the C model on the regular domain, "
     "so the same Coq model is the common reference of both implementations.")
@@ -150,6 +152,7 @@ X_OPS = {
 C2X = {"mulQuat": "quat_mul", "rotVecQuat": "rotate", "negQuat": "quat_inv", "mulQuatAxis": "quat_mul_axis",
        "quat2Mat": "quat_to_mat", "axisAngle2Quat": "axis_angle_to_quat", "quatIntegrate": "quat_integrate",
        "subQuat": "quat_sub"}
+C2X_ALL = dict(C2X, **{k: k for k in X_OPS})
 VEL_OPS = {"subQuat", "subQuat_i", "quat_sub"}     # rotation-vector outputs: a flip at |angle| = pi is the same rotation
 
 OPCODE = {}
@@ -338,13 +341,28 @@ def law_euler(e, seq):
 
 def law_sub_integrate(u, v, h, integ="quatIntegrate", sub="subQuat"):
     (q1,) = yield [(integ, u + v + [h])]
-    (d,) = yield [(sub, q1 + u)]
+    (d, dn) = yield [(sub, q1 + u), (sub, [-x for x in q1] + u)]
     f = []
     exp = [x * h for x in v]
     if not close(d, exp):
         f.append(("%s(%s(q, v, h), q) = v*h for |v| h < pi" % (sub, integ), exp, d))
+    # q and -q are the same rotation: the difference must not depend on the sign (at |angle| = pi both +-v*h are right)
+    if not (close(dn, exp) or (abs(norm(exp) - math.pi) < 1e-9 and close(dn, [-x for x in exp]))):
+        f.append(("%s(-%s(q, v, h), q) = v*h (sign of the quaternion is irrelevant, angle wrapped to [-pi, pi])" % (sub, integ), exp, dn))
     if not close([norm(q1)], [1.0]):
         f.append(("%s returns a unit quaternion" % integ, 1.0, norm(q1)))
+    return f
+
+
+def law_integrate_nonunit(a, v, h, integ="quatIntegrate"):
+    """non-unit input quaternion: the result is the normalised input times the step rotation, hence unit"""
+    na = unitize(a)
+    (q1, q2) = yield [(integ, a + v + [h]), (integ, na + v + [h])]
+    f = []
+    if not close([norm(q1)], [1.0]):
+        f.append(("%s normalises a non-unit quaternion" % integ, 1.0, norm(q1)))
+    elif not close(q1, q2):
+        f.append(("%s(q) = %s(q/|q|)" % (integ, integ), q2, q1))
     return f
 
 
@@ -511,23 +529,23 @@ def c_cases(ctx):
     """explicit correspondence cases for the C side: (op, args[, seq])"""
     rng = ctx.rng
     big = ctx.tier != "quick"
-    n = 40 if not big else 400
+    n = 20 if not big else 200
     cs = []
     qs_all = Q_SPECIAL_UNIT + Q_SPECIAL_OTHER
     for q in qs_all:
         cs += [("negQuat", q), ("negQuat_i", q), ("quat2Mat", q), ("normalize4", q), ("normalize4_i", q)]
-        for dt in (1.0, 0.002, -0.5):
+        for dt in ((1.0, 0.002, -0.5) if big else (1.0, rng.choice([0.002, -0.5]))):
             cs += [("quat2Vel", q + [dt]), ("quat2Vel_i", q + [dt])]
-        for v in V_SPECIAL[:8] + [rv(rng)]:
-            cs += [("rotVecQuat", v + q), ("rotVecQuat_i", v + q), ("mulQuatAxis", q + v), ("mulQuatAxis_i", q + v), ("derivQuat", q + v)]
-        for q2 in rng.sample(qs_all, 6) + [rq(rng)]:
+        for v in (V_SPECIAL[:8] if big else [V_SPECIAL[0]] + rng.sample(V_SPECIAL[1:8], 2)) + [rv(rng)]:
+            cs += [("rotVecQuat", v + q), ("rotVecQuat_i", v + q), ("mulQuatAxis", q + v), ("mulQuatAxis_i" if big else "derivQuat", q + v), ("derivQuat", q + v)]
+        for q2 in rng.sample(qs_all, 6 if big else 2) + [rq(rng)]:
             cs += [("mulQuat", q + q2), ("mulQuat_i", q + q2), ("subQuat", q + q2), ("subQuat_i", q + q2)]
-        for v in rng.sample(V_SPECIAL, 5) + [rv(rng)]:
-            for h in (0.0, 1.0, 0.002, -0.7):
-                cs += [("quatIntegrate", q + v + [h]), ("quatIntegrate_i", q + v + [h])]
+        for v in rng.sample(V_SPECIAL, 5 if big else 2) + [rv(rng)]:
+            for h in ((0.0, 1.0, 0.002, -0.7) if big else (rng.choice([0.0, 1.0]), rng.choice([0.002, -0.7]))):
+                cs += [("quatIntegrate", q + v + [h]), ("quatIntegrate_i" if (big or rng.random() < 0.5) else "quatIntegrate", q + v + [h])]
     for v in V_SPECIAL:
         cs += [("normalize3", v), ("normalize3_i", v), ("quatZ2Vec", v)]
-        for th in (0.0, -0.0, math.pi, -math.pi, 2 * math.pi, 1e-300, 1e-9, 0.5, 7.0):
+        for th in ((0.0, -0.0, math.pi, -math.pi, 2 * math.pi, 1e-300, 1e-9, 0.5, 7.0) if big else (0.0, -0.0, math.pi, rng.choice([-math.pi, 2 * math.pi, 1e-300, 1e-9, 0.5, 7.0]))):
             cs += [("axisAngle2Quat", v + [th]), ("axisAngle2Quat_i", v + [th])]
     # normalisation thresholds around mjMINVAL and |norm-1| ~ mjMINVAL
     for k in range(n):
@@ -549,7 +567,7 @@ def c_cases(ctx):
         cs += [("mat2Quat", m), ("mat2Quat_i", m)]
     # poses with special members
     for q in Q_SPECIAL_UNIT[:12] + Q_SPECIAL_OTHER[:6]:
-        for v in V_SPECIAL[:5]:
+        for v in (V_SPECIAL[:5] if big else [V_SPECIAL[0], rng.choice(V_SPECIAL[1:5])]):
             cs += [("mulPose", v + q + rv(rng) + ruq(rng)), ("mulPose", rv(rng) + ruq(rng) + v + q), ("negPose", v + q), ("trnVecPose", v + q + rv(rng)),
                    ("trnVecPose", rv(rng) + q + v)]
     # euler: invalid strings (mjERROR) and special angles; the 216 valid sequences come from the laws
@@ -564,7 +582,7 @@ def c_cases(ctx):
 def c_laws(ctx):
     rng = ctx.rng
     big = ctx.tier != "quick"
-    n = 25 if not big else 300
+    n = 12 if not big else 100
     laws = []
 
     def add(name, gen, **kw):
@@ -595,6 +613,7 @@ def c_laws(ctx):
         vel = [x * ang / abs(h) for x in w]
         add("sub_integrate", law_sub_integrate(u1, vel, h, rng.choice(["quatIntegrate", "quatIntegrate_i"]), rng.choice(["subQuat", "subQuat_i"])), inputs=[u1, vel, h])
         add("integrate_sub", law_integrate_sub(u1, u2), inputs=[u1, u2])
+        add("integrate_nonunit", law_integrate_nonunit(a, vel, h, rng.choice(["quatIntegrate", "quatIntegrate_i"])), inputs=[a, vel, h])
         add("misc", law_misc(a, rv(rng), rng.choice([rv(rng), [0, 0, 1.0], [0, 0, -2.0], [1e-20, 0, -1.0]])), inputs=[a])
         add("alias", law_alias(a, b, v), inputs=[a, b, v])
         # derivatives (oracle only)
@@ -605,7 +624,7 @@ def c_laws(ctx):
     for u in specials:
         add("mat2quat", law_mat2quat(u), inputs=[u])
         add("mat2quat", law_mat2quat(u, "mat2Quat_i"), inputs=[u])
-        for v in V_SPECIAL[:7]:
+        for v in (V_SPECIAL[:7] if big else [V_SPECIAL[0], rng.choice(V_SPECIAL[1:7])]):
             add("rot", law_rot(u, v), inputs=[u, v])
             add("rot", law_rot(u, v, "rotVecQuat_i"), inputs=[u, v])
     # every Euler sequence
@@ -632,16 +651,18 @@ def law_mjd_sub_pair(rng, qa, ang):
 
 def x_cases(ctx):
     rng = ctx.rng
-    n = 40 if ctx.tier == "quick" else 400
+    n = 15 if ctx.tier == "quick" else 200
     cs = []
     for q in Q_SPECIAL_UNIT + [[2.0, 0, 0, 0], [1.0, 2.0, 3.0, 4.0], [0.0, 0, 0, 0], [0, 5e-9, 0, 0], [1.0, 5e-9, -5e-9, 0], [1.0, 2e-8, 0, 0]]:
         cs += [("quat_inv", q), ("quat_to_mat", q), ("quat_to_axis_angle", q)]
-        for v in V_SPECIAL[:7] + [rv(rng)]:
+        big = ctx.tier != "quick"
+        for v in (V_SPECIAL[:7] if big else rng.sample(V_SPECIAL[:7], 2)) + [rv(rng)]:
             cs += [("rotate", v + q), ("quat_mul_axis", q + v)]
-        for q2 in rng.sample(Q_SPECIAL_UNIT, 4) + [rq(rng)]:
+        for q2 in rng.sample(Q_SPECIAL_UNIT, 4 if big else 2) + [rq(rng)]:
             cs += [("quat_mul", q + q2), ("quat_sub", q + q2)]
-        for v in [[0.0, 0, 0], [5e-9, 0, 0], [5e-9, -5e-9, 9e-9], [2e-8, 0, 0], [1e-7, 0, 0], [0, 0, 1.0], rv(rng)]:
-            for h in (0.0, 1.0, 0.002):
+        vs = [[0.0, 0, 0], [5e-9, 0, 0], [5e-9, -5e-9, 9e-9], [2e-8, 0, 0], [1e-7, 0, 0], [0, 0, 1.0], rv(rng)]
+        for v in (vs if big else rng.sample(vs, 3)):
+            for h in ((0.0, 1.0, 0.002) if big else (rng.choice([0.0, 1.0, 0.002]),)):
                 cs.append(("quat_integrate", q + v + [h]))
     for v in [[0.0, 0, 0], [5e-9, 0, 0], [9e-9, 9e-9, 9e-9], [2e-8, 0, 0], [0, 0, 1e-6], [1.0, 0, 0], [3.0, -4.0, 12.0]]:
         cs.append(("normalize_with_norm", v))
@@ -680,7 +701,7 @@ def x_regular(op, args):
 
 def x_laws(ctx):
     rng = ctx.rng
-    n = 15 if ctx.tier == "quick" else 150
+    n = 15 if ctx.tier == "quick" else 100
     laws = []
     for k in range(n):
         a, b, c = rq(rng), rq(rng), rq(rng)
@@ -693,6 +714,11 @@ def x_laws(ctx):
         h = rng.choice([1.0, 0.002])
         laws.append((dict(law="sub_integrate"), law_sub_integrate(u, [x * ang / h for x in w], h)))
     return laws
+
+
+def explicit_gen(cases):
+    yield cases
+    return []
 
 
 def report_laws(ctx, results, side, counts):
@@ -728,8 +754,12 @@ def run(ctx):
                                   observed="ERR" if o is None else o, theorem="C24_euler2Quat_error", signature={"side": "C", "law": "euler error"})
         res = run_laws(cimpl, c_laws(ctx))
         report_laws(ctx, res, "C", counts)
-        for (op, args, seq), o in cimpl.log.items():
-            if op in C_OPS:
+        explicit_keys = set((c[0], tuple(hx(x) for x in c[1]), c[2] if len(c) > 2 else "") for c in explicit)
+        keep = 0.6 if ctx.tier != "quick" else 0.3
+        for key, o in cimpl.log.items():
+            (op, args, seq) = key
+            # quick tier: every explicit case and every euler2Quat call, and a random 30% (thorough: 60%) of the other calls issued by the law oracle
+            if op in C_OPS and (key in explicit_keys or op == "euler2Quat" or rng.random() < keep):
                 coq_cases.append((OPCODE[("c", op)], seq, args, o, ("C", op)))
     # ---------------- MJX side
     mjx_py = os.path.join(F.VERIF, "harness", "drivers", "c24_mjx.py")
@@ -740,8 +770,7 @@ def run(ctx):
     else:
         env = dict(os.environ, JAX_PLATFORMS="cpu", XLA_FLAGS="--xla_force_host_platform_device_count=1")
         ximpl = Impl(ctx, "MJX", "/venv/bin/python", args=[mjx_py, ctx.repo], env=env)
-        ximpl.call(x_cases(ctx))
-        res = run_laws(ximpl, x_laws(ctx), opmap=C2X)
+        res = run_laws(ximpl, [(dict(law="explicit", err_ok=True), explicit_gen(x_cases(ctx)))] + x_laws(ctx), opmap=C2X_ALL)
         report_laws(ctx, res, "MJX", xcounts)
         for (op, args, seq), o in ximpl.log.items():
             coq_cases.append((OPCODE[("x", op)], "", args, o, ("MJX", op)))
